@@ -496,6 +496,14 @@ func (m *c07Model) Encode(s string, addSpecial bool) ([]int32, error) {
 	}
 	for i := 0; i < len(s); i++ {
 		b := s[i]
+		if cfg.Script {
+			// script mode: letter 'a'+k is token id k (prompt tokens are never decoded)
+			if b < 'a' || b > 'z' {
+				return nil, fmt.Errorf("c07 text processor: byte %q outside the alphabet", b)
+			}
+			out = append(out, int32(b-'a'))
+			continue
+		}
 		if b < 'a' || int(b-'a') >= cfg.Vocab-1 {
 			return nil, fmt.Errorf("c07 text processor: byte %q outside the alphabet", b)
 		}
